@@ -6,7 +6,7 @@
   Unlike the relational tie of C15, the Fitter's answer depends on *which* filling / wrapping is
   chosen, so the search order is that of the code: `fill_before` is a depth-first search over
   `match.next` in edge order with one seen-list shared by the whole search; `compute_wrapping` is a
-  breadth-first search with a seen-set of type names.  Tied exactly (harness/fitplan.py: `fillBefore`,
+  breadth-first search with a seen-set of type names.  Tied exactly (harness/rangeplan.py: `fillBefore`,
   `findWrapping`).
 -/
 import PM.Basic
